@@ -77,6 +77,13 @@ def st_case(draw, threaded=None):
     if graphs.save_when_of(prov[d["target"]], d["target"]) == 0 and draw(st.integers(0, 4)) == 0:
         d["save"].append(d["target"])  # saving a NEVER type must be refused
     d["modifier"] = draw(st.sampled_from(MODIFIERS))
+    if len(targets) > 1:
+        # the temporary merge plugin joins two paths that may share upstream data (a diamond): capacity above the
+        # lag;  time ranges over several targets are C10's subject (known finding F13), not the planner's
+        d["cfg"]["max_messages"] = sum(len(c) + 1 for c in d["cutsA"].values()) + \
+            sum(len(c) + 1 for c in d["cutsB"].values()) + 3
+        if d["modifier"] == "time_range":
+            d["modifier"] = "none"
     t1u = d["t1"] * d["unit"]
     a = draw(st.integers(0, max(0, d["t1"] - 1))) * d["unit"]
     d["time_range"] = [a, draw(st.integers(a // d["unit"] + 1, d["t1"])) * d["unit"]] if t1u > 0 else [0, 1]
